@@ -865,7 +865,9 @@ Qed.
    constant second argument of quantile / group_concat on the pair (nil, nil) returns.
 
    [parse_check_agg fo re fmt_v fxq fxa q] is parse_check followed by that chain (fxa / fxq: the
-   two repairs made on the way, see Properties/C14.v; the theorems hold for either setting).
+   two repairs made on the way, see Properties/C14.v; the theorems hold for either setting; with
+   fxa = true the ExecuteError of a wrong aggregate argument count comes from the call validation
+   and is reported as PAInitErr too).
    With these, EVERY positional error BuildPlan can return for a query text -- whichever of its
    stages raises it -- is -1, 0 or a token start, and lies inside the query. *)
 From KV Require Import Model.AggInit Proofs.AggInitProofs.
